@@ -50,6 +50,27 @@ try:
     res["steps"]["build"] = rc == 0
     t0 = time.time()
     rc, o = sh("go test -vet=off -count=1 -timeout 20m $(go list ./... | grep -v 'dc4bc/client$')", wt)
+    if rc != 0:
+        # packages that share fixed /tmp paths (e.g. /tmp/airgapped_test) collide
+        # with runs in other worktrees: re-run each failing package alone
+        import re as _re
+        failing = sorted(set(_re.findall(r"^FAIL\t(\S+)", o, _re.M)))
+        still = []
+        for pkg in failing:
+            ok = False
+            for attempt in range(8):
+                time.sleep(2 + attempt)
+                rc2, o2 = sh("go test -vet=off -count=1 -timeout 20m %s" % pkg, wt)
+                if rc2 == 0:
+                    ok = True
+                    break
+                if "resource temporarily unavailable" not in o2 and attempt >= 2:
+                    break
+            if not ok:
+                still.append(pkg)
+        if failing and not still:
+            rc = 0
+            res["suite_note"] = "packages re-run alone after a collision on shared /tmp paths: %s" % failing
     res["steps"]["stable_suite_passes_with_change"] = rc == 0
     res["suite_s"] = round(time.time() - t0)
     if rc != 0:
